@@ -173,6 +173,23 @@ func subSecond(v []int) int {
 	return ((v[5]*37 + v[4]*11 + v[3]*7 + v[2]) % 4) * 333000000 // 0, .333, .666, .999 s
 }
 
+// zeroDate: the "no date" value - in turn the zero Date and the zero instant carrying a Location (Local, west and east
+// of Greenwich), which IsZero() does not tell apart
+var zeroDateTurn int
+
+func zeroDate() types.Date {
+	zeroDateTurn++
+	switch zeroDateTurn % 4 {
+	case 1:
+		return types.Date(time.Time{}.Local())
+	case 2:
+		return types.Date(time.Time{}.In(time.FixedZone("W", -5*3600)))
+	case 3:
+		return types.Date(time.Time{}.In(time.FixedZone("E", 5*3600+45*60)))
+	}
+	return types.Date{}
+}
+
 func setField(f reflect.Value, tok string) {
 	p := strings.SplitN(tok, ":", 2)
 	arg := ""
@@ -217,11 +234,14 @@ func setField(f reflect.Value, tok string) {
 		if arg != "0" {
 			v := dashInts(arg)
 			f.Set(reflect.ValueOf(types.ToDate(v[0], time.Month(v[1]), v[2])))
+		} else {
+			f.Set(reflect.ValueOf(zeroDate()))
 		}
 	case tDatePtr:
 		if arg == "nil" {
 		} else if arg == "0" {
-			f.Set(reflect.ValueOf(&types.Date{}))
+			d := zeroDate()
+			f.Set(reflect.ValueOf(&d))
 		} else {
 			v := dashInts(arg)
 			d := types.ToDate(v[0], time.Month(v[1]), v[2])
